@@ -206,7 +206,11 @@ Inductive oleaf :=
 | OPersist (v : val) (db : option val)         (* variable + stored copy *)
 | OPLog (l : list val) (db : list (Z * val))   (* log + stored entries *)
 | OShared (v : val) (other : bool)
-| ORelaxed (l : list val) (down : bool).
+| ORelaxed (l : list val) (down : bool)
+| OCrdt (v : Z)                                (* grow-only counter *)
+| OCell (v : val)                              (* a variable without indexed access *)
+| OPlace
+| OFD (st : option bool).
 
 Definition oval_step (v : val) (a : act) : res (val * val) :=
   match a with
@@ -287,6 +291,27 @@ Definition leaf_sstep (o : oleaf) (a : act) : res (oleaf * val) :=
       | ATouch [] => Refuse
       | _ => Crash
       end
+  | OCrdt c =>
+      match a with
+      | ARead [] => Ok (o, VI c)
+      | AWrite [] (VI n) => Ok (OCrdt (add32 c n), VD)
+      | ATouch [] => Refuse
+      | _ => Crash
+      end
+  | OCell v =>
+      match a with
+      | ARead [] => Ok (o, v)
+      | AWrite [] x => Ok (OCell x, VD)
+      | ATouch [] => Refuse
+      | _ => Crash
+      end
+  | OPlace => match a with ATouch [] => Refuse | _ => Crash end
+  | OFD st =>
+      match a with
+      | ARead [] => match st with Some b => Ok (o, VB b) | None => Refuse end
+      | ATouch [] => Refuse
+      | _ => Crash
+      end
   end.
 
 Definition leaf_cur (s : leaf) : oleaf :=
@@ -303,6 +328,10 @@ Definition leaf_cur (s : leaf) : oleaf :=
   | LShared v _ _ other => OShared v other
   | LRelaxed _ sent inf down => ORelaxed (sent ++ inf) down
   | LTcp inCS rbuf delivered => OSent (delivered ++ (if inCS then rbuf else []))
+  | LCrdt v _ _ => OCrdt v
+  | LTwoPC v _ _ => OCell v
+  | LPlace => OPlace
+  | LFD st => OFD st
   end.
 
 (* the published (last-commit) view.  For the two kinds that put data on the wire inside
@@ -322,6 +351,10 @@ Definition leaf_obs (s : leaf) : oleaf :=
   | LShared _ old _ other => OShared old other
   | LRelaxed _ sent _ down => ORelaxed sent down
   | LTcp _ _ delivered => OSent delivered
+  | LCrdt v old hasOld => OCrdt (if hasOld then old else v)
+  | LTwoPC _ old _ => OCell old
+  | LPlace => OPlace
+  | LFD st => OFD st
   end.
 
 Definition leaf_inv (s : leaf) : Prop :=
@@ -331,6 +364,7 @@ Definition leaf_inv (s : leaf) : Prop :=
   | LPLog _ _ hasOld ops _ => hasOld = false -> ops = []
   | LShared v old hl other => (hl = false -> v = old) /\ (hl = true -> other = false)
   | LRelaxed hs _ inf _ => hs = false -> inf = []
+  | LTwoPC v old cs => cs = TNot -> v = old
   | _ => True
   end.
 
@@ -348,10 +382,18 @@ Definition leaf_qui (s : leaf) : Prop :=
   | LShared _ _ hl _ => hl = false
   | LRelaxed hs _ _ _ => hs = false
   | LTcp inCS _ _ => inCS = false
+  | LCrdt _ _ hasOld => hasOld = false
+  | LTwoPC _ _ cs => cs = TNot
+  | LPlace => True
+  | LFD _ => True
   end.
 
+(* Commit of a 2PC variable requires a completed PreCommit (the Go code asserts it) *)
+Definition leaf_prep (s : leaf) : Prop :=
+  match s with LTwoPC _ _ cs => cs = TPre | _ => True end.
+
 Definition leaf_abs : absn leaf act oleaf :=
-  mkAbs leaf_cur leaf_obs leaf_inv leaf_qui (fun _ => True) leaf_sstep eq.
+  mkAbs leaf_cur leaf_obs leaf_inv leaf_qui leaf_prep leaf_sstep eq.
 
 Ltac inv_pair :=
   repeat match goal with
@@ -461,6 +503,18 @@ Proof.
   - (* LTcp *)
     cbn in Hs. destruct a as [[|i p]|[|i p] x|[|i p]]; inv_pair; cbn; auto.
     split; auto. split; auto. split; auto. destruct inCS; now rewrite ?app_assoc.
+  - (* LCrdt *)
+    cbn in Hs. destruct a as [[|i p]|[|i p] x|[|i p]]; inv_pair; cbn; auto.
+    destruct x; inv_pair; cbn; auto; destruct hasOld; auto.
+  - (* LTwoPC *)
+    cbn in Hs. cbn in Hi. destruct a as [[|i p]|[|i p] x|[|i p]]; inv_pair; cbn; auto.
+    + split; [destruct cs; cbn; auto; discriminate|auto].
+    + split; [destruct cs; cbn; discriminate|auto].
+  - (* LPlace *)
+    cbn in Hs. destruct a as [[|i p]|[|i p] x|[|i p]]; inv_pair; cbn; auto.
+  - (* LFD *)
+    cbn in Hs. destruct a as [[|i p]|[|i p] x|[|i p]]; inv_pair; cbn; auto.
+    destruct st; inv_pair; cbn; auto.
 Qed.
 
 Lemma leaf_laws : laws leaf_impl leaf_abs.
@@ -479,14 +533,17 @@ Proof.
     + destruct Hi as [Hv _]. rewrite Hv; auto.
     + rewrite (Hi eq_refl). now rewrite app_nil_r.
     + now rewrite app_nil_r.
+    + rewrite (Hi eq_refl). reflexivity.
   - apply leaf_L_step.
-  - intros s s' b Hi Hs. inversion Hs; subst. auto.
+  - intros s s' b Hi Hs. destruct s; cbn in Hs; inversion Hs; subst; cbn; auto.
+    split; [discriminate|auto].
   - (* cm *)
-    intros s Hi _. destruct s; cbn in *; auto.
+    intros s Hi Hp. destruct s; cbn in *; auto.
     + split; [intros; discriminate|auto].
     + destruct hasOld; cbn; auto. split; auto. split; auto. rewrite (Hi eq_refl). reflexivity.
     + destruct Hi as [Hv Ho]. destruct hasLock; cbn; auto. rewrite (Hv eq_refl). auto.
     + destruct inCS; cbn; auto. split; auto. split; auto. now rewrite app_nil_r.
+    + subst cs. cbn. auto.
   - (* ab *)
     intros s Hi Ha. destruct s; cbn in *; try discriminate; auto.
     + split; auto. split; auto. now rewrite <- app_assoc.
@@ -494,6 +551,7 @@ Proof.
     + split; auto. intros; discriminate.
     + destruct hasOld; cbn; auto.
     + destruct Hi as [Hv Ho]. destruct hasLock; cbn; auto.
+    + destruct hasOld; cbn; auto.
   - intros o1 o2 a ->. apply sres_eq_refl. auto.
 Qed.
 
@@ -513,10 +571,25 @@ Qed.
 
 (* ------------------------------------------------------------------ a top-level resource; the context *)
 
-Definition node_abs : absn node act (oleaf + (val -> option oleaf)) := sum_abs leaf_abs imap_abs.
+(* nestedArchetype over a lawful nested system is lawful: the outer resource only forwards *)
+Definition nested_abs : absn leaf act oleaf := retarget_abs leaf_abs nested_act (fun _ => false).
+
+Lemma nested_impl_eq : nested_impl = retarget_impl leaf_impl nested_act (fun _ => false).
+Proof. reflexivity. Qed.
+
+Lemma nested_laws : laws nested_impl nested_abs.
+Proof. rewrite nested_impl_eq. apply retarget_laws. apply leaf_laws. Qed.
+
+(* the same for ANY lawful nested system *)
+Lemma nested_laws_any {S O} (I : impl S act) (X : absn S act O) :
+  laws I X -> laws (retarget_impl I nested_act (fun _ => false)) (retarget_abs X nested_act (fun _ => false)).
+Proof. intros H. apply retarget_laws. exact H. Qed.
+
+Definition node_abs : absn node act (oleaf + ((val -> option oleaf) + oleaf)) :=
+  sum_abs leaf_abs (sum_abs imap_abs nested_abs).
 
 Lemma node_laws : laws node_impl node_abs.
-Proof. apply sum_laws; [apply leaf_laws|apply imap_laws]. Qed.
+Proof. apply sum_laws; [apply leaf_laws|apply sum_laws; [apply imap_laws|apply nested_laws]]. Qed.
 
 Definition ctx_abs := fam_abs String.eqb node_abs.
 Definition ctx_spec_run := @spec_run string node act _ String.eqb node_abs.
@@ -546,9 +619,15 @@ Proof.
   intros. eapply dirty_empty_after with (X := node_abs); eauto; [apply str_eqb_eq|apply node_laws].
 Qed.
 
+Lemma leaf_pc_true : forall l, snd (leaf_pc l) = true.
+Proof. destruct l; reflexivity. Qed.
+
 Lemma node_pc_true : forall s, snd (i_pc node_impl s) = true.
 Proof.
-  intros [l|m]; cbn; auto. unfold fam_pc. cbn. apply forallb_forall. intros k _. destruct (fres m k); auto.
+  intros [l|[m|l]]; cbn.
+  - destruct (leaf_pc l) eqn:E. cbn. pose proof (leaf_pc_true l) as H. now rewrite E in H.
+  - unfold fam_pc. cbn. apply forallb_forall. intros k _. destruct (fres m k); auto. cbn. apply leaf_pc_true.
+  - destruct (leaf_pc l) eqn:E. cbn. pose proof (leaf_pc_true l) as H. now rewrite E in H.
 Qed.
 
 Lemma ctx_abort_only_if_blocked : forall (c : ctx) p fl pf c',
@@ -564,7 +643,7 @@ Qed.
 (* ------------------------------------------------------------------ transactional kinds never panic in Abort *)
 
 Definition leaf_tx (s : leaf) : Prop :=
-  match s with LSOut _ _ _ => False | LRelaxed _ _ _ _ => False | _ => True end.
+  match s with LSOut _ _ _ => False | LRelaxed _ _ _ _ => False | LPlace => False | _ => True end.
 
 Lemma leaf_tx_step : forall s a, leaf_tx s -> leaf_tx (fst (leaf_step s a)).
 Proof.
@@ -588,6 +667,9 @@ Proof.
     + destruct (apply_path value p); exact Logic.I.
     + destruct (subst_path value p x); exact Logic.I.
   - destruct a as [[|? ?]|[|? ?] ?|[|? ?]]; cbn; auto.
+  - destruct a as [[|? ?]|[|? ?] x|[|? ?]]; cbn; auto. destruct x; exact Logic.I.
+  - destruct a as [[|? ?]|[|? ?] ?|[|? ?]]; cbn; auto.
+  - destruct a as [[|? ?]|[|? ?] ?|[|? ?]]; cbn; auto. destruct st; exact Logic.I.
 Qed.
 
 Definition leaf_abs_tx : absn leaf act oleaf := strengthen_abs leaf_abs leaf_tx.
@@ -597,14 +679,16 @@ Proof.
   apply strengthen_laws.
   - apply leaf_laws.
   - apply leaf_tx_step.
-  - intros s H. exact H.
+  - intros s H. destruct s; try contradiction; cbn; auto.
   - intros s H. destruct s; try contradiction; cbn; auto.
     + destruct hasOld; exact Logic.I.
     + destruct hasLock; exact Logic.I.
     + destruct inCS; exact Logic.I.
+    + destruct cs; exact Logic.I.
   - intros s H. destruct s; try contradiction; cbn; auto.
     + destruct hasOld; exact Logic.I.
     + destruct hasLock; exact Logic.I.
+    + destruct hasOld; exact Logic.I.
 Qed.
 
 Definition imap_abs_tx : absn imap act (val -> option oleaf) :=
@@ -615,9 +699,13 @@ Proof.
   rewrite imap_impl_eq. apply retarget_laws. apply fam_laws; [apply val_eqb_eq|apply leaf_laws_tx].
 Qed.
 
-Definition node_abs_tx := sum_abs leaf_abs_tx imap_abs_tx.
+Definition nested_abs_tx : absn leaf act oleaf := retarget_abs leaf_abs_tx nested_act (fun _ => false).
+Lemma nested_laws_tx : laws nested_impl nested_abs_tx.
+Proof. rewrite nested_impl_eq. apply retarget_laws. apply leaf_laws_tx. Qed.
+
+Definition node_abs_tx := sum_abs leaf_abs_tx (sum_abs imap_abs_tx nested_abs_tx).
 Lemma node_laws_tx : laws node_impl node_abs_tx.
-Proof. apply sum_laws; [apply leaf_laws_tx|apply imap_laws_tx]. Qed.
+Proof. apply sum_laws; [apply leaf_laws_tx|apply sum_laws; [apply imap_laws_tx|apply nested_laws_tx]]. Qed.
 
 Definition ctx_abs_tx := fam_abs String.eqb node_abs_tx.
 
@@ -635,9 +723,10 @@ Qed.
 
 Lemma node_tx_abp : forall s, x_inv node_abs_tx s -> i_abp node_impl s = false.
 Proof.
-  intros [l|m] H; cbn in *.
+  intros [l|[m|l]] H; cbn in *.
   - apply leaf_tx_abp. tauto.
   - apply (fam_inv_abp val_eqb leaf_impl leaf_abs_tx); auto. intros s [_ Hs]. apply leaf_tx_abp; auto.
+  - apply leaf_tx_abp. tauto.
 Qed.
 
 Lemma ctx_tx_never_panics : forall (c : ctx) p fl pf c' out,
